@@ -1,6 +1,6 @@
 (** C05 — cache indexes agree with cache contents.
     Statements only; proofs in Cache/IndexProofs.v. *)
-From LOV Require Import Cache.IndexProofs Cache.IndexPinned.
+From LOV Require Import Cache.IndexProofs Cache.IndexPinned Cache.IndexBatch.
 
 (** [Inv]: every index map is exactly the grouping of the cached rows by the
     index key and has no empty entry.  It holds of the empty cache ... *)
@@ -19,16 +19,31 @@ Print Assumptions C05_batch_preserves_inv.
 
 (** ... and a batch of changes to distinct rows applies in every order with
     the same resulting rows; the invariant holds afterwards for every such
-    order.  (Full statement of the property = this theorem without the
-    [batch_fresh] hypothesis under uniqueness of the initial and final states;
-    the missing part is the order "taker before giver" of a schema-indexed
-    value, decided by the correspondence check.) *)
+    order. *)
 Theorem C05_batch_any_order_partial : forall T specs c b,
   Inv T specs c -> NoDup (ch_uuid <$> b) -> Forall (ch_ok (rc_rows c)) b ->
   forall p, p ≡ₚ b -> batch_fresh T specs (rc_rows c) p ->
   exists c', apply_batch T specs c p = COk c' /\ Inv T specs c' /\ rc_rows c' = rows_after (rc_rows c) b.
 Proof. exact batch_any_order_inv_partial. Qed.
 Print Assumptions C05_batch_any_order_partial.
+
+(** The full statement: without [batch_fresh].  The rows are unique under
+    every schema index before and after the batch (what the server guarantees
+    of every committed state, C06); inside the batch a schema-indexed value may
+    be handed from one row to another, and the taker may be applied before the
+    giver.  In EVERY order the batch applies, ends in the same rows, and every
+    index - schema or client - is exactly the grouping of those rows by key.
+    (Proof: Cache/IndexBatch.v, through an invariant of the middle of a batch:
+    a schema-index entry points at the last writer of its key, and an entry
+    pointing at a row not yet applied means no applied row holds the key.) *)
+Theorem C05_batch_any_order : forall T specs c b,
+  Inv T specs c -> schema_unique T specs (rc_rows c) ->
+  NoDup (ch_uuid <$> b) -> Forall (ch_ok (rc_rows c)) b ->
+  schema_unique T specs (rows_after (rc_rows c) b) ->
+  forall p, p ≡ₚ b ->
+  exists c', apply_batch T specs c p = COk c' /\ Inv T specs c' /\ rc_rows c' = rows_after (rc_rows c) b.
+Proof. exact batch_any_order_inv. Qed.
+Print Assumptions C05_batch_any_order.
 
 (** With client indexes only, every order of every batch is covered. *)
 Theorem C05_batch_any_order_client_indexes : forall T specs c b,
@@ -73,3 +88,12 @@ Theorem C05_handover_witness :
   lookup_b (update_pinned wT wspecs (update_pinned wT wspecs wstart 10%N (wrow 6%N)) 11%N (wrow 5%N)) = [].
 Proof. repeat split; vm_compute; reflexivity. Qed.
 Print Assumptions C05_handover_witness.
+
+(** the key of an index over several columns tells an unset optional column
+    from its neighbour's value; the pinned encoding did not *)
+Theorem C05_multi_column_key_pinned_refuted :
+  let r1 := krow None (Some (AStr 5)) in
+  let r2 := krow (Some (AStr 5)) None in
+  K_pinned kT kspec r1 = K_pinned kT kspec r2 /\ K kT kspec r1 <> K kT kspec r2.
+Proof. exact K_pinned_refuted. Qed.
+Print Assumptions C05_multi_column_key_pinned_refuted.
